@@ -144,7 +144,7 @@ def run_ext(ctx):
             case = {"ext": EXT, "kind": "leaf-output", "addr": addr, "coin": str(coin), "map": r == 5}
         dispatch(ctx, case)
     ctx.assumptions.append("leaves: the inline datum of an output is carried as the primitive the implementation restores it to; "
-                           "the native-script leaf is abstract in Props/C01_Leaves.lean")
+                           "the native-script leaf is the model of NativeScript.from_primitive (output_roundtrip_closed)")
 
 
 def replay_ext(ctx, case):
